@@ -213,6 +213,7 @@ def run(ck):
 
     narrowing_len_sweep(ck, crate("rs", "concordium_base"), re.compile(r"concordium_base::bulletproofs::"), re.compile(r"verify[a-z_0-9]*(::\\{closure#\\d+\\})*$"))
 
+    eq_polarity_sweep(ck, crate("rs", "concordium_base"), re.compile(r"concordium_base::bulletproofs::"), re.compile(r"verify[a-z_0-9]*(::\\{closure#\\d+\\})*$"))
 
 
 def array_ops(f, op):
